@@ -16,7 +16,9 @@ Record item := {
   ph : bool;                           (* .<name>.placeholder next to the destination *)
   tmp : bool;                          (* a temporary artefact left behind next to the destination (.alpentemp*, a transport's temp file): never cleaned *)
   stg : bool;                          (* the staging directory of the attempt in progress *)
-  req : rstate }.
+  req : rstate;
+  due : bool }.                        (* memory of the destination's daemon: it has not yet had an idle update since it started, so its
+                                          first idle update will queue the tidy-up task (stale placeholders); a restarted daemon starts with true *)
 
 Definition bytes_eqb (a b : bytes) : bool := match a, b with Good, Good | Bad, Bad => true | _, _ => false end.
 Definition obytes_eqb (a b : option bytes) : bool := match a, b with Some x, Some y => bytes_eqb x y | None, None => true | _, _ => false end.
@@ -25,7 +27,7 @@ Definition row_eqb (a b : option (has * wants)) : bool :=
   match a, b with Some (h, w), Some (h', w') => has_eqb h h' && wants_eqb w w' | None, None => true | _, _ => false end.
 Definition item_eqb (a b : item) : bool :=
   has_eqb (src_has a) (src_has b) && obytes_eqb (src_disk a) (src_disk b) && row_eqb (dst_row a) (dst_row b) && obytes_eqb (dst_disk a) (dst_disk b)
-  && Bool.eqb (ph a) (ph b) && Bool.eqb (tmp a) (tmp b) && Bool.eqb (stg a) (stg b) && rstate_eqb (req a) (req b).
+  && Bool.eqb (ph a) (ph b) && Bool.eqb (tmp a) (tmp b) && Bool.eqb (stg a) (stg b) && rstate_eqb (req a) (req b) && Bool.eqb (due a) (due b).
 
 (* ---- micro-operations ---- *)
 Inductive mop :=
@@ -40,19 +42,20 @@ Inductive mop :=
 | SrcHas (h : has)
 | ReqSet (r : rstate).
 
-Definition set_dst_row i r := {| src_has := src_has i; src_disk := src_disk i; dst_row := r; dst_disk := dst_disk i; ph := ph i; tmp := tmp i; stg := stg i; req := req i |}.
-Definition set_dst_disk i d := {| src_has := src_has i; src_disk := src_disk i; dst_row := dst_row i; dst_disk := d; ph := ph i; tmp := tmp i; stg := stg i; req := req i |}.
-Definition set_ph i b := {| src_has := src_has i; src_disk := src_disk i; dst_row := dst_row i; dst_disk := dst_disk i; ph := b; tmp := tmp i; stg := stg i; req := req i |}.
-Definition set_tmp i b := {| src_has := src_has i; src_disk := src_disk i; dst_row := dst_row i; dst_disk := dst_disk i; ph := ph i; tmp := b; stg := stg i; req := req i |}.
-Definition set_stg i b := {| src_has := src_has i; src_disk := src_disk i; dst_row := dst_row i; dst_disk := dst_disk i; ph := ph i; tmp := tmp i; stg := b; req := req i |}.
-Definition set_src_has i h := {| src_has := h; src_disk := src_disk i; dst_row := dst_row i; dst_disk := dst_disk i; ph := ph i; tmp := tmp i; stg := stg i; req := req i |}.
-Definition set_req i r := {| src_has := src_has i; src_disk := src_disk i; dst_row := dst_row i; dst_disk := dst_disk i; ph := ph i; tmp := tmp i; stg := stg i; req := r |}.
+Definition set_dst_row i r := {| src_has := src_has i; src_disk := src_disk i; dst_row := r; dst_disk := dst_disk i; ph := ph i; tmp := tmp i; stg := stg i; req := req i; due := due i |}.
+Definition set_dst_disk i d := {| src_has := src_has i; src_disk := src_disk i; dst_row := dst_row i; dst_disk := d; ph := ph i; tmp := tmp i; stg := stg i; req := req i; due := due i |}.
+Definition set_ph i b := {| src_has := src_has i; src_disk := src_disk i; dst_row := dst_row i; dst_disk := dst_disk i; ph := b; tmp := tmp i; stg := stg i; req := req i; due := due i |}.
+Definition set_tmp i b := {| src_has := src_has i; src_disk := src_disk i; dst_row := dst_row i; dst_disk := dst_disk i; ph := ph i; tmp := b; stg := stg i; req := req i; due := due i |}.
+Definition set_stg i b := {| src_has := src_has i; src_disk := src_disk i; dst_row := dst_row i; dst_disk := dst_disk i; ph := ph i; tmp := tmp i; stg := b; req := req i; due := due i |}.
+Definition set_src_has i h := {| src_has := h; src_disk := src_disk i; dst_row := dst_row i; dst_disk := dst_disk i; ph := ph i; tmp := tmp i; stg := stg i; req := req i; due := due i |}.
+Definition set_req i r := {| src_has := src_has i; src_disk := src_disk i; dst_row := dst_row i; dst_disk := dst_disk i; ph := ph i; tmp := tmp i; stg := stg i; req := r; due := due i |}.
+Definition set_due i b := {| src_has := src_has i; src_disk := src_disk i; dst_row := dst_row i; dst_disk := dst_disk i; ph := ph i; tmp := tmp i; stg := stg i; req := req i; due := b |}.
 
 (* state while a task runs: the item and, inside a transaction, the database fields to restore on a crash *)
 Definition dbpart := (has * option (has * wants) * rstate)%type.
 Definition db_of (i : item) : dbpart := (src_has i, dst_row i, req i).
 Definition restore (i : item) (d : dbpart) : item :=
-  let '(sh, row, r) := d in {| src_has := sh; src_disk := src_disk i; dst_row := row; dst_disk := dst_disk i; ph := ph i; tmp := tmp i; stg := stg i; req := r |}.
+  let '(sh, row, r) := d in {| src_has := sh; src_disk := src_disk i; dst_row := row; dst_disk := dst_disk i; ph := ph i; tmp := tmp i; stg := stg i; req := r; due := due i |}.
 Definition rstate_ := (item * option dbpart)%type.
 
 Definition step (s : rstate_) (m : mop) : rstate_ :=
@@ -75,7 +78,8 @@ Definition step (s : rstate_) (m : mop) : rstate_ :=
 Definition exec (l : list mop) (i : item) : rstate_ := fold_left step l (i, None).
 Definition run (l : list mop) (i : item) : item := fst (exec l i).
 (* killed after the first k micro-operations: the open transaction is rolled back, files stay as they are *)
-Definition killed (j : item) : item := set_stg (set_tmp j (tmp j || stg j)) false.      (* nobody removes the staging directory any more *)
+Definition killed (j : item) : item :=
+  set_due (set_stg (set_tmp j (tmp j || stg j)) false) true.      (* nobody removes the staging directory any more; the next daemon starts afresh *)
 Definition crash (k : nat) (l : list mop) (i : item) : item :=
   let '(j, snap) := exec (firstn k l) i in killed (match snap with Some d => restore j d | None => j end).
 
@@ -128,7 +132,7 @@ Record env := { src_active : bool;      (* the source node is active (and then i
 
 (* The main loop first decides, on the index as it is when the iteration starts, which tasks to queue (cancelling a request is
    done on the spot); the queued tasks then run in order, each re-reading what it needs. *)
-Inductive task := TCheckSrc | TCheckDst | TDelete | TSearchPull | TPullForce.
+Inductive task := TCheckSrc | TCheckDst | TDelete | TSearchPull | TPullForce | TTidy.
 Definition wants_of (i : item) : wants := match dst_row i with Some (_, w) => w | None => WN end.
 
 (* what task t does when it starts in state i *)
@@ -145,6 +149,7 @@ Definition task_script (e : env) (b : beh) (i : item) (t : task) : list mop :=
                    | SHandOff => pull_gate e b i
                    end
   | TPullForce => pull_gate e b i
+  | TTidy => if ph i then [PhRemove] else []          (* DefaultNodeIO.idle_update: remove the stale placeholder beside a registered file *)
   end.
 Definition run_task (e : env) (b : beh) (i : item) (t : task) : item := run (task_script e b i t) i.
 
@@ -162,9 +167,18 @@ Definition dst_dispatch (e : env) (i : item) : item * list task :=
       end
   | _ => (i, checks ++ deletes)
   end.
+(* The idle update follows the dispatch in the same pass of the main loop: the node is idle when nothing was queued in its own FIFO
+   (checks, deletions and a forced pull that passed the space gate are; the pre-pull search is queued in the group's FIFO).  The first
+   idle update of a daemon queues the tidy-up task; the next one is 400 idle updates away (outside every horizon considered here). *)
+Definition node_busy (e : env) (ts : list task) : bool :=
+  existsb (fun t => match t with TCheckDst | TDelete => true | TPullForce => gate_ok e | _ => false end) ts.
+(* the tidy-up and the pre-pull search sit in different FIFOs, both idle: either may be taken first *)
+Definition dst_dispatch_tidy (tidy_first : bool) (e : env) (i : item) : item * list task :=
+  let '(i', ts) := dst_dispatch e i in
+  if due i' && negb (node_busy e ts) then (set_due i' false, if tidy_first then TTidy :: ts else ts ++ [TTidy]) else (i', ts).
 Definition src_round (e : env) (i : item) : item := fold_left (run_task e BWorks) (src_dispatch e i) i.
 Definition dst_round (e : env) (b : beh) (i : item) : item :=
-  if dst_usable e then let '(i', ts) := dst_dispatch e i in fold_left (run_task e b) ts i' else i.
+  if dst_usable e then let '(i', ts) := dst_dispatch_tidy true e i in fold_left (run_task e b) ts i' else i.
 Definition round (e : env) (b : beh) (i : item) : item := dst_round e b (src_round e i).
 Fixpoint rounds (n : nat) (e : env) (i : item) : item := match n with O => i | S n' => rounds n' e (round e BWorks i) end.
 
@@ -175,8 +189,9 @@ Fixpoint trace_tasks (e : env) (b : beh) (i : item) (ts : list task) : list item
   | [] => [i]
   | t :: ts' => crash_states (task_script e b i t) i ++ trace_tasks e b (run_task e b i t) ts'
   end.
-Definition dst_trace (e : env) (b : beh) (i : item) : list item :=
-  if dst_usable e then let '(i', ts) := dst_dispatch e i in i :: trace_tasks e b i' ts else [i].
+Definition dst_trace_o (tidy_first : bool) (e : env) (b : beh) (i : item) : list item :=
+  if dst_usable e then let '(i', ts) := dst_dispatch_tidy tidy_first e i in i :: trace_tasks e b i' ts else [i].
+Definition dst_trace := dst_trace_o true.
 
 (* ---- what must hold of every state, crashed or not ---- *)
 (* a copy recorded healthy, and a completed request, are backed by good bytes *)
@@ -204,8 +219,8 @@ Definition all_bool := [true; false].
 Definition all_rstate := [Pending; Completed; Cancelled].
 Definition all_rows : list (option (has * wants)) := None :: map Some (list_prod all_has all_wants).
 Definition all_items : list item :=
-  flat_map (fun a => flat_map (fun b => flat_map (fun c => flat_map (fun d => flat_map (fun p => flat_map (fun t => flat_map (fun g => map (fun r =>
-    {| src_has := a; src_disk := b; dst_row := c; dst_disk := d; ph := p; tmp := t; stg := g; req := r |}) all_rstate) all_bool) all_bool) all_bool) all_obytes) all_rows) all_obytes) all_has.
+  flat_map (fun a => flat_map (fun b => flat_map (fun c => flat_map (fun d => flat_map (fun p => flat_map (fun t => flat_map (fun g => flat_map (fun r => map (fun u =>
+    {| src_has := a; src_disk := b; dst_row := c; dst_disk := d; ph := p; tmp := t; stg := g; req := r; due := u |}) all_bool) all_rstate) all_bool) all_bool) all_bool) all_obytes) all_rows) all_obytes) all_has.
 Definition all_leftover := [LNone; LTmp; LPartial].
 Definition all_beh : list beh := BWorks :: flat_map (fun cs => map (BFail cs) all_leftover) all_bool.
 Definition all_tenv : list tenv := flat_map (fun a => map (fun b => {| trusted := a; inproc := b |}) all_bool) all_bool.
